@@ -147,6 +147,10 @@ func (c *c12Contracts) Lock(context.Context, types.FileContractID) (contracts.Si
 	return contracts.SignedRevision{}, errors.New("not used")
 }
 func (c *c12Contracts) Unlock(types.FileContractID) {}
+
+// (WP-G, fixes/C06-revise-guard-at-commit.patch: rpcRenewAndClearContract asks the manager once more before
+// the renewal set enters the pool; the stubbed contract is always revisable)
+func (c *c12Contracts) Revisable(types.FileContractID) error { return nil }
 func (c *c12Contracts) AddContract(revision contracts.SignedRevision, formationSet []types.Transaction, lockedCollateral types.Currency, initialUsage contracts.Usage) error {
 	c.rec = append(c.rec, c12Recorded{kind: "add", revision: revision, locked: lockedCollateral, usage: initialUsage})
 	c12Event("store")
